@@ -28,6 +28,8 @@ type Verdict struct {
 	Model    string
 	SMTPath  string
 	SMTBytes int
+	Watch    []WatchItem
+	Values   map[string]string // contract-level expression -> value in the counterexample
 }
 
 type solverDef struct {
@@ -87,11 +89,35 @@ func runSolver(ctx context.Context, sd solverDef, file string, timeoutS int) Sol
 // Solve discharges one obligation by racing the solvers (all=true: run all to completion).
 func Solve(o *Obligation, outDir string, timeoutS int, all bool) *Verdict {
 	extra := []string{"(assert " + o.Guard + ")", "(assert (not " + o.Formula + "))"}
-	script := o.sc.Render(o.Mark, extra, true)
+	script := o.sc.Render(o.Mark, extra, false)
+	if o.ExpectSat {
+		// vacuity: drop engine-generated quantified facts (dropping assertions can only make the
+		// query more satisfiable, i.e. the vacuity check weaker, never unsound for the proofs)
+		var keep []string
+		for _, l := range strings.Split(script, "\n") {
+			if strings.HasPrefix(l, "(assert (forall") {
+				continue
+			}
+			keep = append(keep, l)
+		}
+		script = strings.Join(keep, "\n")
+	}
+	if len(o.Watch) > 0 {
+		var ts []string
+		seen := map[string]bool{}
+		for _, w := range o.Watch {
+			if !seen[w.Term] {
+				seen[w.Term] = true
+				ts = append(ts, w.Term)
+			}
+		}
+		script += "(get-value (" + strings.Join(ts, " ") + "))\n"
+	}
 	fname := filepath.Join(outDir, sanitizeFile(o.Name)+".smt2")
 	_ = os.MkdirAll(outDir, 0o755)
 	_ = os.WriteFile(fname, []byte(script), 0o644)
 	v := &Verdict{Ob: o, SMTPath: fname, SMTBytes: len(script)}
+	v.Watch = o.Watch
 	ctx, cancel := context.WithCancel(context.Background())
 	defer cancel()
 	ch := make(chan SolverRun, len(solvers))
@@ -135,6 +161,7 @@ func Solve(o *Obligation, outDir string, timeoutS int, all bool) *Verdict {
 	case sat != nil:
 		v.Status, v.Solver, v.Ms = "failed", sat.Solver, sat.Ms
 		v.Model = modelOf(sat.Output)
+		v.Values = parseValues(v.Model, o.Watch)
 	default:
 		v.Status = "undecided"
 	}
@@ -178,4 +205,103 @@ func SolveAll(obs []*Obligation, outDir string, timeoutS int, all bool, par int)
 	}
 	wg.Wait()
 	return res
+}
+
+// parseValues reads a (get-value ...) answer: a list of (term value) pairs.
+func parseValues(model string, watch []WatchItem) map[string]string {
+	out := map[string]string{}
+	sx := parseSexprs(model)
+	if len(sx) == 0 {
+		return out
+	}
+	byTerm := map[string]string{}
+	for _, pair := range sx[0].kids {
+		if len(pair.kids) == 2 {
+			byTerm[normSpace(pair.kids[0].String())] = pair.kids[1].String()
+		}
+	}
+	for _, w := range watch {
+		if v, ok := byTerm[normSpace(w.Term)]; ok {
+			out[w.Src] = v
+		}
+	}
+	return out
+}
+
+func normSpace(s string) string { return strings.Join(strings.Fields(s), " ") }
+
+type sexpr struct {
+	atom string
+	kids []*sexpr
+	list bool
+}
+
+func (s *sexpr) String() string {
+	if !s.list {
+		return s.atom
+	}
+	var xs []string
+	for _, k := range s.kids {
+		xs = append(xs, k.String())
+	}
+	return "(" + strings.Join(xs, " ") + ")"
+}
+
+func parseSexprs(src string) []*sexpr {
+	var stack []*sexpr
+	var top []*sexpr
+	i := 0
+	push := func(n *sexpr) {
+		if len(stack) > 0 {
+			stack[len(stack)-1].kids = append(stack[len(stack)-1].kids, n)
+		} else {
+			top = append(top, n)
+		}
+	}
+	for i < len(src) {
+		c := src[i]
+		switch {
+		case c == '(':
+			n := &sexpr{list: true}
+			push(n)
+			stack = append(stack, n)
+			i++
+		case c == ')':
+			if len(stack) > 0 {
+				stack = stack[:len(stack)-1]
+			}
+			i++
+		case c == ' ' || c == '\n' || c == '\t' || c == '\r':
+			i++
+		case c == '"':
+			j := i + 1
+			for j < len(src) {
+				if src[j] == '"' {
+					if j+1 < len(src) && src[j+1] == '"' {
+						j += 2
+						continue
+					}
+					break
+				}
+				j++
+			}
+			push(&sexpr{atom: src[i:min(j+1, len(src))]})
+			i = j + 1
+		case c == '|':
+			j := i + 1
+			for j < len(src) && src[j] != '|' {
+				j++
+			}
+			push(&sexpr{atom: src[i:min(j+1, len(src))]})
+			i = j + 1
+		default:
+			j := i
+			for j < len(src) && !strings.ContainsRune("() \n\t\r", rune(src[j])) {
+				j++
+			}
+			push(&sexpr{atom: src[i:j]})
+			i = j
+		}
+	}
+	return top
 }
